@@ -66,7 +66,9 @@ class ExportConfigFortran(ExportConfig):
             else:
                 if len(shape)>1:
                     dims = ",".join(str(s) for s in shape)
-                    lines.append(f"  {dtype}, dimension ({dims}), parameter :: {name} = reshape([{value}],[{dims}])")
+                    # values are listed in row-major order, reshape fills column-major by default
+                    order = ",".join(str(s) for s in range(len(shape),0,-1))
+                    lines.append(f"  {dtype}, dimension ({dims}), parameter :: {name} = reshape([{value}],[{dims}],order=[{order}])")
                 else:
                     shape = ",".join(str(s) for s in shape)
                     lines.append(f"  {dtype}, dimension ({shape}) :: {name} = [{value}];")
